@@ -142,6 +142,28 @@ std::string ProgStrand() {
   return s;
 }
 
+// several fibers sleeping until exactly the same virtual time: whoever orders them must not use anything but the
+// order in which they went to sleep
+std::string ProgTie() {
+  yaclib_std::atomic<int> cell{0};
+  std::string order;
+  const auto deadline = yaclib_std::chrono::steady_clock::now() + std::chrono::microseconds(50);
+  std::vector<yaclib_std::thread> ts;
+  for (int t = 0; t != 4; ++t) {
+    ts.emplace_back([&, t] {
+      yaclib_std::this_thread::sleep_until(deadline);
+      order += static_cast<char>('A' + t);
+      for (int k = 0; k != 4; ++k) {
+        cell.store(cell.load(std::memory_order_relaxed) * 3 + t, std::memory_order_relaxed);
+      }
+    });
+  }
+  for (auto& t : ts) {
+    t.join();
+  }
+  return "order=" + order + " cell=" + std::to_string(cell.load());
+}
+
 std::string ProgTimed() {
   std::vector<yaclib::Promise<int>> ps;
   std::vector<yaclib::Future<int>> fs;
@@ -237,6 +259,9 @@ std::string RunProg(const std::string& name) {
   }
   if (name == "timed") {
     return ProgTimed();
+  }
+  if (name == "tie") {
+    return ProgTie();
   }
   return ProgCoro();
 }
@@ -347,6 +372,9 @@ int ReproMain(int argc, char** argv) {
   }
   for (int r = 0; r != runs; ++r) {
     g_ids.clear();
+    // the second in-process run allocates downwards: a decision that depends on the ORDER of two addresses flips,
+    // while still no address is ever handed out twice
+    vrt::SetNoReuseHeap(true, r % 2 == 1);
     yaclib::SetSeed(seed);
     yaclib::fiber::SetInjectorState(0);
     if (!restore_prog.empty()) {
